@@ -279,8 +279,12 @@ def worker(src: str, res: runner.Result) -> None:  # pylint: disable=too-many-lo
             if not isinstance(out, ExecutionPaths):
                 continue
             paths = list(out.paths)
-            with harness.capture():
-                wrote = out.generate_output(Path(root))
+            try:
+                with harness.capture():
+                    wrote = out.generate_output(Path(root))
+            except BaseException as e:  # pylint: disable=broad-except
+                res.violation("C18.generate-output-crash", src, detector=det, error=repr(e), paths=[[b.idx for b in p] for p in paths][:4])
+                continue
             if wrote != bool(paths):
                 res.violation("C18.generate-output-return", src, detector=det)
             for k, path in enumerate(paths, start=1):
